@@ -27,6 +27,9 @@ impl Engine for CombEngine {
         let case = gen_case(bytes, &self.profile);
         self.eval_case(&case, trace)
     }
+    fn describe(&self, bytes: &[u8]) -> String {
+        gen_case(bytes, &self.profile).show()
+    }
 }
 
 impl CombEngine {
